@@ -222,6 +222,17 @@ Definition sockaddr_to_udp (tbl : list iface) (sa : option sockaddr) : outcome (
   | _ => Ret None
   end.
 
+(* vocabulary for statements that hold alike for *net.TCPAddr and *net.UDPAddr:
+   mk_na builds the address, back is the matching converse conversion
+   (SockaddrToTCPOrUnixAddr for TCP, SockaddrToUDPAddr for UDP) *)
+Inductive ipkind := KTCP | KUDP.
+
+Definition mk_na (k : ipkind) (ip : option bytes) (port : Z) (zone : bytes) : netaddr :=
+  match k with KTCP => NTCP ip port zone | KUDP => NUDP ip port zone end.
+
+Definition back (k : ipkind) (tbl : list iface) (sa : option sockaddr) : outcome (option netaddr) :=
+  match k with KTCP => sockaddr_to_tcp_or_unix tbl sa | KUDP => sockaddr_to_udp tbl sa end.
+
 (* ---- sock_posix.go + tcp_socket.go / udp_socket.go: the sockaddr that is
    bound / connected for a resolved address ---- *)
 Definition AF_INET := 2.
